@@ -19,8 +19,10 @@ def run(ctx):
         "(history_drops_once, history_never_drops_twice)",
         "zero-sized element types: counting model (Coll/Zst.lean) of Drain (as repaired) / IntoIter / truncate / split_off / merge proved "
         "exactly-once by counts; not replayed by the driver (the implementation side is the counting oracle)",
-        "NOT modelled (checked on the real types by the exactly-once accounting oracle only, incl. a panic at every callback index): "
-        "BumpVec::map, into_flattened; splice is not part of the history-level Op type (BumpVec only)",
+        "BumpVec::map (generic_map: in-place path with its DropGuard for same / smaller layouts incl. the byte-overlap check of every write, "
+        "from_iter_exact fallback for bigger / stricter-aligned / zero-sized layouts) and into_flattened: modelled + proved + replayed (profile split); "
+        "zero-sized input/output of map run the fallback: covered by the id-level theorem abstractly and by counting oracles on the implementation",
+        "splice / map / into_flattened are not part of the history-level Op type (they exist on BumpVec only / change the element type)",
         "BumpBox<T> single-value routes (into_inner, leak, into_ref/into_mut) are not modelled",
     ]
     proved = prove(ctx, MODULES)
